@@ -3,6 +3,44 @@ import json, os
 V = os.path.dirname(os.path.dirname(os.path.abspath(__file__)))
 props = [json.loads(l)["id"] for l in open(os.path.join(V, "properties.jsonl"))]
 CHECKS = {
+ "C13": dict(
+   text="Coq theorems (Props/C13.v, 7; proofs in Gsm/{ClosureProofs,NfaProofs,DfaProofs}.v, ~2500 lines) over a structural "
+        "model of the engine (heap of State objects, Concat as node copy, epsilon_closure with visited set, lazy subset "
+        "construction, Pattern.consume): for every well-formed pattern and every word, nfa_match and match decide membership in "
+        "the regular language, starts_with returns exactly the shortest non-empty matching prefix, none ever errs (disjoint "
+        "predicates), and building never runs out of fuel (closure total on any heap, also with epsilon cycles). The model is "
+        "tied to the code by running both on all patterns of size<=4 x all words of length<=4 (quick) plus random larger ones; "
+        "an independent derivative matcher judges the implementation alone.",
+   note="Trusted: Coq kernel; the hand-written model Gsm/{Regex,Nfa,Dfa}.v (validated by correspondence, ~73k pairs per quick "
+        "run); eager nfa_to_dfa is modelled by its lazily computed reachable part (termination of the work-list itself is not "
+        "modelled, only observed); Identity atoms over distinct integers as the disjoint alphabet.",
+   technique="Rocq proof (Thompson invariant, closure = reachability, subset simulation) + vm_compute correspondence on enumerated patterns x words",
+   ref="DESIGN.md section 5, C13"),
+ "C14": dict(
+   text="Coq theorems (Props/C14.v, 6; proofs in Gsm/ScanProofs.v): find_all equals leftmost selection over isolated greedy "
+        "runs for ANY predicates and any acceptance filter (simulation invariant of the scan loop); bounds, ordering and "
+        "non-overlap (also at the end of input); for disjoint stateless predicates every reported match is a word of the "
+        "language, the longest from its start, and every start whose greedy run succeeds is covered; a Balanced group open "
+        "among the current transitions accepts every token, so a match cannot end before the end of input inside a group. "
+        "Tie: all non-nullable patterns size<=4 x words, the three header shapes over all token sequences of length<=6, random "
+        "long ones, each judged conjunct by conjunct with independent oracles.",
+   note="Trusted: Coq kernel; model Gsm/Dfa.v find_all (validated by correspondence, ~65k cases per quick run); independent "
+        "oracles in harness/gsm_common.py and c14.py (derivatives, shape runner).",
+   technique="Rocq proof (loop invariant of the search, sort canonicity, language semantics via C13) + vm_compute correspondence",
+   ref="DESIGN.md section 5, C14"),
+ "C15": dict(
+   text="Generic Coq theorem (Gsm/UnambProofs.v): if the finite invariant check passes for a pattern — all reachable (DFA state, "
+        "depth class per Balanced predicate) configurations x all token classes (kind x distinguished literal or other), closed "
+        "under abstract steps, at most one applicable transition — then no token sequence whatsoever makes consume/find_all/"
+        "starts_with return the ambiguity error (simulation between concrete depth counters and classes, abstraction lemma for "
+        "tokens). Props/C15.v instantiates it by vm_compute on the header and follow-up patterns captured from the live language "
+        "objects of /repo on this run (7 certificates) and concludes C15_all for every language.  The search replays every token "
+        "sequence of length<=4 (+ random paren-rich ones) through the real extract_headers.",
+   note="Trusted: Coq kernel incl. vm_compute; translate/capture.py (serialises live pattern objects; fail-closed on unknown "
+        "classes); predicate state keyed by predicate value instead of object identity (single_stateful_check certificate).",
+   technique="Rocq proof of a certificate checker's soundness + kernel-computed certificates on captured patterns (finite space, exhaustive)",
+   ref="DESIGN.md section 5, C15"),
+
  "C02": dict(
    text="Coq theorems (Props/C02.v, 12) over definitions re-translated from /repo on every run: every threshold site "
         "equals the category function for all integers L; profile slots partition; check's exit status, per-file listing "
